@@ -1,6 +1,8 @@
 """Presentations of one job set (C03): permutation of jobs, of the events
 inside each job, fresh identifiers of three styles, timestamp shift or
-reversal, repetition of a job (as a second instance with fresh ids).  All
+reversal, repetition of a job (as a second instance with fresh ids, or the
+very same records again), and the route (in memory, job files, event files
+grouped by job id).  All
 choices come from one integer drawn by Hypothesis."""
 import random
 
@@ -30,7 +32,14 @@ def present(jobs, pres_seed, name="job"):
     shuffle_events = rng.random() < 0.7
     d["events_permuted"] = shuffle_events
     out = []
+    same_ids = bool(dup) and rng.random() < 0.4
+    d["repeat_same_ids"] = same_ids
+    made = {}
     for j in seq:
+        if same_ids and id(j) in made:
+            # the very same job supplied twice: same job id, same event ids
+            out.append([dict(e) for e in made[id(j)]])
+            continue
         pv = learn.job_to_pv(j, name, ids=style, rng=rng, base_ts=shift)
         if reverse_ts:
             ts = [e["timestamp"] for e in pv][::-1]
@@ -41,5 +50,12 @@ def present(jobs, pres_seed, name="job"):
             for e in pv:
                 if "previousEventIds" in e:
                     rng.shuffle(e["previousEventIds"])
+        made[id(j)] = pv
         out.append(pv)
+    # route by which the presentation reaches the learner: the in-memory
+    # call, one JSON array file per job, or one JSON file per event with
+    # grouping by job id (-group-by-job); file order drawn
+    d["route"] = rng.choice(["memory", "memory", "memory", "job_files",
+                             "event_files"])
+    d["route_seed"] = rng.getrandbits(30)
     return out, d
